@@ -52,6 +52,10 @@ func setupFixtures() {
 		regCert("y.sudoinagent", k2, ysshcaKeyID(true, false, false, false, 1, "a000000007"), t-h, t+h, map[string]string{"touchless-sudo-hosts": "h1"})
 		regCert("y.headless", k2, ysshcaKeyID(false, false, true, false, 1, "a000000008"), t-h, t+h, nil)
 		regCert("y.lapsing", k1, ysshcaKeyID(false, true, false, false, 3, "a00000000a"), t-h, t+10, nil) // hidden in no-upstream mode, lapses during a history
+		// YSSHCA KeyIDs surrounded by JSON whitespace (the KeyID decoder accepts them, so they are YSSHCA certificates)
+		regCert("y.ws.both", k1, "\t"+ysshcaKeyID(false, true, false, false, 3, "a00000000b")+" \r\n", t-h, t+h, nil)
+		regCert("y.ws.trail", k2, ysshcaKeyID(true, false, false, false, 1, "a00000000c")+"\n", t-h, t+h, nil)
+		regCert("y.ws.lead", k1, " "+ysshcaKeyID(false, true, false, false, 1, "a00000000d"), t-h, t+h, nil)
 		regCert("y.default", k2, ysshcaKeyID(false, false, false, false, 0, "a000000009"), t-h, t+h, nil)
 		regCert("n.missing", k1, `{"prins":["alice"],"transID":"b1","reqUser":"alice","reqIP":"1.2.3.4","reqHost":"h","isFirefighter":false,"isHWKey":true,"isHeadless":false,"isNonce":false,"usage":0,"ver":1}`, t-h, t+h, nil)
 		regCert("n.ver2", k1, `{"prins":["alice"],"transID":"b2","reqUser":"alice","reqIP":"1.2.3.4","reqHost":"h","isFirefighter":false,"isHWKey":true,"isHeadless":false,"isNonce":false,"usage":0,"touchPolicy":1,"ver":2}`, t-h, t+h, nil)
@@ -62,5 +66,13 @@ func setupFixtures() {
 		regCert("n.nohw", k2, `{"prins":["alice"],"transID":"b5","reqUser":"alice","reqIP":"1.2.3.4","reqHost":"h","isFirefighter":false,"isHeadless":false,"isNonce":false,"usage":0,"touchPolicy":1,"ver":1}`, t-h, t+h, nil)
 		regCert("n.free", k2, "free text", t-h, t+h, nil)
 		regCert("n.empty", k2, "", t-h, t+h, nil)
+		// one key and three certificates (expired, current, not yet valid) per key family, incl. the legacy and the
+		// security-key types (certificate algorithm names differ per family)
+		for fam, key := range map[string]*ident{"rsa": regKey("a.rsa.key", fix.RSA(1024)), "p384": regKey("a.p384.key", fix.EC(384)),
+			"p521": regKey("a.p521.key", fix.EC(521)), "ed25519": regKey("a.ed25519.key", fix.Ed(3)), "dsa": regKey("a.dsa.key", fix.DSA()), "sk": regSignerKey("a.sk.key", fix.SK(4))} {
+			regCert("a."+fam+".past", key, plain+" "+fam+" past", t-2*h, t-h, nil)
+			regCert("a."+fam+".cur", key, plain+" "+fam+" cur", t-h, t+h, nil)
+			regCert("a."+fam+".future", key, plain+" "+fam+" future", t+h/2, t+2*h, nil)
+		}
 	})
 }
